@@ -197,6 +197,51 @@ func c04JSONSeeds(quick bool) (map[string][][]byte, [][]byte) {
 		`{"type":"Place"}`, `{"type":"Tombstone","deleted":""}`, `{"type":"Profile","describes":{}}`, `{}`, `[]`, `[{}]`, `[[],{}]`} {
 		add("degenerate", []byte(d))
 	}
+	// interacting members: a term together with its Map form (the plain text equal to the first, a middle, the last or no entry),
+	// lists mixing short and long IRIs with repeats, the same identity in several addressing lists, long lists
+	for _, term := range []string{"name", "summary", "content", "preferredUsername"} {
+		for n := 1; n <= 3; n++ {
+			tags := []string{"en", "fr", "de"}[:n]
+			for plain := -1; plain <= n; plain++ {
+				var m []string
+				for i, tg := range tags {
+					m = append(m, fmt.Sprintf("%q:%q", tg, fmt.Sprintf("text %d", i)))
+				}
+				p := "other text"
+				if plain >= 0 && plain < n {
+					p = fmt.Sprintf("text %d", plain)
+				} else if plain == n {
+					p = ""
+				}
+				add("interaction", []byte(fmt.Sprintf(`{"type":"Person","id":"https://example.com/p",%q:%q,%q:{%s}}`, term, p, term+"Map", strings.Join(m, ","))))
+				add("interaction", []byte(fmt.Sprintf(`{"type":"Note","source":{"content":%q,"contentMap":{%s},"mediaType":"text/plain"}}`, p, strings.Join(m, ","))))
+			}
+		}
+	}
+	short, long70, long300 := `"https://example.com/a"`, `"https://example.com/`+strings.Repeat("b", 70)+`"`, `"https://example.com/`+strings.Repeat("c", 300)+`"`
+	for _, l := range []string{short + "," + long70, long70 + "," + short, long70 + "," + long70 + "," + short + "," + long300 + "," + short, long300 + "," + long70 + "," + long300} {
+		add("interaction", []byte(`{"type":"Note","id":`+long70+`,"to":[`+l+`],"cc":[`+l+`],"attributedTo":`+long300+`}`))
+		add("interaction", []byte(`{"type":"OrderedCollection","id":`+short+`,"orderedItems":[`+l+`],"totalItems":3}`))
+		add("interaction", []byte(`[`+l+`]`))
+	}
+	add("interaction", []byte(`{"type":"Create","to":["https://example.com/a"],"cc":["https://example.com/a"],"bto":["https://example.com/a"],"bcc":["https://example.com/a"],"audience":["https://example.com/a"],"actor":"https://example.com/a","object":{"id":"https://example.com/a","to":["https://example.com/a"]}}`))
+	for _, n := range []int{17, 33, 65} {
+		var l []string
+		for i := 0; i < n; i++ {
+			switch {
+			case i%7 == 3:
+				l = append(l, `{"type":"Note","name":"anonymous"}`)
+			case i%7 == 5:
+				l = append(l, `{"type":"Note","id":"https://example.com/1"}`)
+			case i%11 == 10:
+				l = append(l, `null`)
+			default:
+				l = append(l, fmt.Sprintf(`"https://example.com/%d"`, i%20))
+			}
+		}
+		add("interaction", []byte(`{"type":"Collection","items":[`+strings.Join(l, ",")+`],"to":[`+strings.Join(l, ",")+`]}`))
+		add("interaction", []byte(`[`+strings.Join(l, ",")+`]`))
+	}
 	// odd shapes: every term of the vocabulary x values of the wrong JSON kind
 	terms := map[string]bool{}
 	for i := range universe.Structs {
